@@ -46,7 +46,7 @@ type c01ev struct {
 
 func (e c01ev) String() string { return fmt.Sprintf("%s@%d", e.Type, e.Gen) }
 
-var c01recipes = []string{"none", "none", "R1b-reader-parked-after-reset", "R4b-namespace-added-after-flag", "R1-reader-parked-after-copy", "R2-event-parked-after-flag-read", "R3-second-reader-while-locked", "R4-namespace-added-during-unlock", "R5-event-parked-after-cache-update", "R6-slow-consumer", "ns-scope-changes", "R7-initial-add-lags-behind-view", "R8-namespace-list-held-during-unlock", "R9-shared-informer-and-namespace-recreated"}
+var c01recipes = []string{"none", "none", "R1b-reader-parked-after-reset", "R4b-namespace-added-after-flag", "R1-reader-parked-after-copy", "R2-event-parked-after-flag-read", "R3-second-reader-while-locked", "R4-namespace-added-during-unlock", "R5-event-parked-after-cache-update", "R6-slow-consumer", "ns-scope-changes", "R7-initial-add-lags-behind-view", "R8-namespace-list-held-during-unlock", "R9-shared-informer-and-namespace-recreated", "R10-second-binding-synchronization-retried"}
 
 func TestC01(t *testing.T) {
 	e := vlib.GetEnv()
@@ -57,7 +57,7 @@ func TestC01(t *testing.T) {
 		// every seventh round over the recipes runs with watch faults (independent of the recipe index: with 14
 		// recipes "index%7" would pin the faults to two fixed recipes and never judge their completeness clause)
 		opts := map[string]bool{"watch-faults": (c.Index/len(c01recipes))%7 == 3, "no-dynamic-ns": true}
-		if recipe == "R9-shared-informer-and-namespace-recreated" {
+		if recipe == "R9-shared-informer-and-namespace-recreated" || recipe == "R10-second-binding-synchronization-retried" {
 			opts["watch-faults"] = false
 		}
 		if recipe == "ns-scope-changes" || strings.HasPrefix(recipe, "R4") || strings.HasPrefix(recipe, "R8") || strings.HasPrefix(recipe, "R9") {
@@ -126,6 +126,21 @@ func c01shape(kc *kcase, recipe string, rng interface{ IntN(int) int }) {
 			return r
 		}
 		kc.Pre, kc.Between, kc.Mid = clean(kc.Pre), nil, nil
+	case "R10-second-binding-synchronization-retried":
+		// one hook, two ungrouped bindings with separate Synchronization tasks, the second in its own queue;
+		// objects appear while the first binding's Synchronization hook runs; the second binding's first
+		// Synchronization attempt fails and waits out its back-off: its buffered changes must not reach the hook
+		// as Events before its own Synchronization has succeeded
+		b.SelShape, b.Sel = "all-namespaces", vlib.KSel{}
+		b.Jq, b.Queue = "", ""
+		second := kbind{Hook: kc.Hooks[0].Rel, Name: "second", SelShape: "all-namespaces", Queue: "q1", OnSync: true, KeepFull: true}
+		kc.Hooks[0].Binds = append(kc.Hooks[0].Binds[:1], second)
+		kc.Hooks[0].SyncFail = 0
+		kc.Hooks[0].FailAt = []int{1}
+		kc.Hooks = kc.Hooks[:1]
+		kc.Between = nil
+		kc.Mid = []kop{{Op: "put", Ns: "ns1", Name: "r10", Lbl: map[string]string{"sel": "x"}}, {Op: "put", Ns: "ns1", Name: "r10", Lbl: map[string]string{"sel": "y"}}}
+		return
 	case "R9-shared-informer-and-namespace-recreated":
 		// two bindings whose informers for namespace dyn1 are one shared informer: the first selects dyn1 by
 		// namespace label (and starts the shared informer), the second names dyn1; dyn1 is deleted and
@@ -406,7 +421,7 @@ func c01recipe(recipe string, kc *kcase) (install, drive, steady func(sys *vlib.
 			gate.Release()
 			sys.Settle(100)
 		}
-	case "R9-shared-informer-and-namespace-recreated":
+	case "R9-shared-informer-and-namespace-recreated", "R10-second-binding-synchronization-retried":
 		install = func(sys *vlib.Sys, rec *krecord) { rec.Armed[recipe] = true }
 	case "R6-slow-consumer":
 		// the single events consumer is slow: the capacity-1 channel back-pressures the informers
